@@ -63,7 +63,24 @@ pub fn streams(out: &mut dyn Write, seed: u64, runs: usize) -> usize {
         line(out, json!({"t": "reset", "run": run, "counters": counters, "rowlen": rows[0].len(), "total": probe.total_counters()}));
         let length = rng.gen_range(5..=(3 * counters as usize + 40).min(160));
         let hot = hashes[rng.gen_range(0..hashes.len())];
-        for step in 1..=length {
+        let mut step = 0usize;
+        while step < length {
+            step += 1;
+            // every third call or so is a BATCH (what the consumer of the access buffers hands over), checked as a whole
+            if rng.gen_range(0..100) < 35 {
+                let size = rng.gen_range(2..=6usize);
+                let batch: Vec<u64> = (0..size).map(|_| if rng.gen_bool(0.55) { hot } else { hashes[rng.gen_range(0..hashes.len())] }).collect();
+                let positions: Vec<[u64; 4]> = batch.iter().map(|hash| probe.positions(*hash)).collect();
+                let has: Vec<bool> = batch.iter().map(|hash| probe.doorkeeper_has(*hash)).collect();
+                probe.increment_access(batch.clone());
+                let mut distinct = batch.clone();
+                distinct.sort(); distinct.dedup();
+                let ests: Vec<Vec<u64>> = distinct.iter().map(|hash| vec![*hash, probe.estimate(*hash) as u64]).collect();
+                line(out, json!({"t": "batch", "run": run, "i": step, "hs": batch, "poss": positions, "has": has,
+                                 "rows": probe.rows(), "total": probe.total_increments(), "ests": ests}));
+                count += 1;
+                continue;
+            }
             let hash = if rng.gen_bool(0.55) { hot } else { hashes[rng.gen_range(0..hashes.len())] };
             let positions = probe.positions(hash);
             let has = probe.doorkeeper_has(hash);
